@@ -38,20 +38,23 @@ claim("C04", "TLC trace validation of real molecular crystals + model checking o
       "and then validates connectivity edges and cells, count Z' x |G|, partition of the unit-cell atoms, wholeness (each molecule is a lattice translate "
       "of the exact image of its parent, hence isometric and bonded), provenance columns, centre of mass in the cell, coverage by the symmetry-unique "
       "molecules and the image labels.",
-      "Bond thresholds come from the library's covalent radii with a +-0.08 A guard band; molecule coordinates are projected to the 1/48 grid "
-      "(residual > 1e-6 rejected); chemistry restricted to C/N/O/F/H trees of 2-5 atoms on general positions.")
+      "Bond thresholds come from covalent radii held by the specification (Molecules!CovRadius100, certified by ThresholdsOK) with a +-0.08 A guard "
+      "band; molecule coordinates are projected to the 1/48 grid (residual > 1e-6 rejected); chemistry restricted to trees of 2-5 atoms of "
+      "C/N/O/F/H with terminal Cl/Br/I/S, on general positions, every non-bonded contact at least 0.65 A beyond the sum of radii.")
 
 claim("C03", "TLC trace validation against an exact brute-force neighbour enumeration + model checking of the search box",
       "MC_Neighbours model-checks, over a bounded family of integer Gram matrices including strongly oblique ones, that slab(search box)+ball test "
       "returns exactly the periodic images within the radius when the box is radius x reciprocal length (and exhibits the counterexample of the "
       "radius / cell-length box found at the pinned commit). Real crystals on exact grids (atomic and molecular, all crystal systems, tiny oblique "
       "triclinic/rhombohedral cells with radii of several cell lengths up to 12.5 A) are queried through atoms_in_radius, atomic_surroundings, "
-      "molecule_environments and atom_group_surroundings; TLC recomputes the expected rows from the space group, the asymmetric unit and the integer "
+      "molecule_environments, atom_group_surroundings and (molecular crystals, radii up to 6.5 A) molecular_shell and symmetry_unique_dimers, whose answers "
+      "are whole molecules judged by Dimers!ShellExpected (every atom within the radius drags in the molecule it belongs to; per dimer: reported "
+      "separation, class agreement, representatives); TLC recomputes the expected rows from the space group, the asymmetric unit and the integer "
       "Gram matrix by brute force over a box it certifies (BigInt inequality) to contain the query ball, and checks none missing / none extra / no "
       "duplicate / centre excluded / element, parent index, distance and cell columns.",
       "Radii are (k+1/2)u^2/N^2 so no atom is on the query sphere; returned Cartesian positions are pulled back with the crystal's to_fractional and "
-      "projected to the grid (residual > 1e-6 rejected); functional_group_surroundings, molecular_shell and symmetry_unique_dimers share the "
-      "search-box code but are not driven.")
+      "projected to the grid (residual > 1e-6 rejected); functional_group_surroundings shares the search-box code but is not driven; which geometrically "
+      "distinct dimers share a class is left to the library (three separations within a tolerance).")
 
 claim("C16", "TLC trace validation of the bytes written/read by the real XYZ/SDF code + exhaustive MC of the format model",
       "MolFormats.tla specifies both formats on byte sequences (writer, fixed-column layout predicate, declarative reader and a line-by-line reader shaped like "
